@@ -169,9 +169,65 @@ fn check_number(dest: &Dest, elems: &[PoeticElem], spelling: &[u32]) -> Result<(
             numeral, expected, computed, d, tolerance, src
         )));
     }
+    // ---- in company: the same literal between other literals in one run denotes what it denotes alone.  The company
+    // is its own shadow (every word replaced by as many ASCII letters as the word has bytes: another number as soon as a
+    // word holds an apostrophe or a non-ASCII letter) and a fixed literal, before and after it.
+    let special = elems.iter().any(|e| matches!(e, PoeticElem::Word(w) | PoeticElem::Suffix(w) if !w.is_ascii() || w.trim_start_matches('\'').contains('\'')));
+    let mut company = false;
+    if elems.len() <= 80 && (special || computed.to_bits() % 4 == 0) {
+        let shadow: Vec<PoeticElem> = elems
+            .iter()
+            .map(|e| match e {
+                PoeticElem::Word(w) if w.starts_with(|c: char| c.is_ascii_digit()) => PoeticElem::Word(w.clone()),
+                PoeticElem::Word(w) => PoeticElem::Word("x".repeat(w.len())),
+                PoeticElem::Suffix(x) if x.starts_with('-') => PoeticElem::Suffix(format!("-{}", "x".repeat(x.len() - 1))),
+                other => other.clone(),
+            })
+            .collect();
+        let other_name = simple("companion");
+        let fixed = vec![PoeticElem::Word("a".into()), PoeticElem::Word("lovestruck".into()), PoeticElem::Word("ladykiller".into())];
+        let poetic = |n: &Name, e: &[PoeticElem]| Stmt::PoeticNum { dest: Lhs::Ident(Ident::Name(n.clone())), rhs: PoeticRhs::Literal(e.to_vec()) };
+        let (mine, read) = build(dest, |l| Stmt::PoeticNum { dest: l, rhs: PoeticRhs::Literal(elems.to_vec()) }, Some(Stmt::Push { array: pvar(&name), value: Some(PushRhs::Poetic(elems.to_vec())) }));
+        let mut st = vec![poetic(&other_name, &shadow), say(var(&other_name)), poetic(&other_name, &fixed), say(var(&other_name))];
+        st.extend(mine.clone());
+        st.push(say(read.clone()));
+        st.push(poetic(&other_name, &shadow));
+        st.push(say(var(&other_name)));
+        st.push(poetic(&simple("again"), elems));
+        st.push(say(var(&simple("again"))));
+        let prog2 = Program::single(st);
+        let src2 = render(&prog2, &[], LAYOUT).text;
+        if let Caught::Done(Ok(tree2)) = parse_rrss(&src2, Some(crate::run::parse_fuel_for(&src2))) {
+            if crate::adapt::program(&tree2) == prog2 {
+                let (c2, out2) = exec_rrss(&tree2, b"", RLimits { exec_fuel: Some(100), alloc_cap: Some(1_000_000) });
+                let text2 = out2.stdout_str();
+                let lines: Vec<&str> = text2.lines().collect();
+                let alone = printed_text.trim_end_matches('\n');
+                if !matches!(c2, Caught::Done(())) || !out2.ok() || lines.len() != 5 {
+                    return Err(Outcome::fail(format!("poetic literal value: a program of five poetic literals failed or printed {} lines: {:?} {:?}\n{}", lines.len(), c2, out2.err, src2)));
+                }
+                if lines[2] != alone || lines[4] != alone {
+                    return Err(Outcome::fail(format!(
+                        "poetic literal value: alone the literal denotes {} but between other literals in one run it denotes {} and then {}\n{}",
+                        alone, lines[2], lines[4], src2
+                    )));
+                }
+                if lines[1] != "100" || lines[0] != lines[3] {
+                    return Err(Outcome::fail(format!("poetic literal value: companion literals print {:?} (the second must be 100, the first and fourth are the same literal)\n{}", lines, src2)));
+                }
+                company = true;
+            }
+        }
+    }
     let mut o = Outcome::pass();
     o.digest = computed.to_bits();
     let mut labels = vec![];
+    if company {
+        labels.push("in_company_of_other_literals".to_string());
+    }
+    if company && special {
+        labels.push("in_company_of_its_ascii_shadow".to_string());
+    }
     let n_words = elems.iter().filter(|e| matches!(e, PoeticElem::Word(_))).count();
     let mut add = |b: bool, s: &str| {
         if b {
